@@ -124,10 +124,13 @@ def ridge_oracle(ctx, rng, eng):
     import contextlib, io
     for it in range(40 if ctx.quick() else 400):
         Hm, Wm = rng.randrange(60, 160), rng.randrange(60, 200)
-        parallel = rng.random() < 0.4      # long parallel sloped ridges: vertical separation >= 15 at every column, bounding boxes overlap
+        parallel = rng.random() < 0.4 or it < 6      # long parallel sloped ridges: vertical separation >= 15 at every column, bounding boxes overlap
         if parallel:
             Hm, Wm = rng.randrange(120, 220), rng.randrange(250, 420)
         common_slope = rng.uniform(-0.08, 0.08)
+        if parallel and (it < 6 or rng.random() < 0.6):
+            # steep enough that the axis-aligned bounding boxes of neighbouring ridges overlap (rise over the ridge > their separation)
+            common_slope = rng.choice([-0.12, -0.1, -0.08, 0.08, 0.1, 0.12])
         ds = rng.choice([1, 2, 4, 8])
         maps = np.zeros((Hm, Wm, 5), dtype=np.float32)
         n = rng.randrange(1, 6)
@@ -161,7 +164,7 @@ def ridge_oracle(ctx, rng, eng):
                 maps[int(round(y)), x0, 3] = 0.5
                 maps[int(round(y + slope * (x1 - x0))), x1, 3] = 0.5
             ridges.append(dict(x0=x0, x1=x1, y0=y, y1=y + slope * (x1 - x0), up=up, down=down, endpoints=endpoints))
-            y += rng.randrange(16, 30) if not want_specks else rng.randrange(28, 40)
+            y += (rng.randrange(16, 30) if not parallel else rng.randrange(16, 22)) if not want_specks else rng.randrange(28, 40)
         # noise specks: blobs of 1..4 baseline pixels (too small to be a text line) well away from every ridge, with heights of their own
         specks = []
         if ridges and want_specks:
